@@ -150,7 +150,19 @@ pub fn bfs(spec: &BfsSpec) -> BfsResult {
                 hists.push(hh);
             }
         }
-        let results = run_cases(spec.engine, &spec.params, &cases, spec.timeout_s);
+        // executed in batches so that the wall-clock cap can stop the search inside a depth; a depth that was cut
+        // short is not counted as completed, but what its executed histories showed is still reported
+        let mut results = Vec::with_capacity(n_cases);
+        let mut cut: Option<usize> = None;
+        for chunk in cases.chunks(4096) {
+            results.extend(run_cases(spec.engine, &spec.params, chunk, spec.timeout_s));
+            if let Some(d) = spec.deadline {
+                if Instant::now() > d && results.len() < n_cases {
+                    cut = Some(results.len());
+                    break;
+                }
+            }
+        }
         let mut next: Vec<Vec<usize>> = vec![];
         let mut new_states = 0;
         let mut trans = 0;
@@ -248,6 +260,10 @@ pub fn bfs(spec: &BfsSpec) -> BfsResult {
         res.transitions += trans;
         res.states += new_states;
         res.per_depth.push((depth, new_states, trans));
+        if let Some(done) = cut {
+            res.capped = Some(format!("wall-clock cap reached inside depth {depth} after {done} of {n_cases} candidate executions; depth {} completed", depth - 1));
+            break;
+        }
         res.depth_completed = depth;
         frontier = next;
         if res.violations.len() > 50 {
